@@ -198,7 +198,7 @@ func main() {
 		die("%v", err)
 	}
 	var o strings.Builder
-	o.WriteString("-- GENERATED by /verif/extract/cmpfacts from lib/value/comparison.go — do not edit.\nimport Csvq.Model.Basic\n\nset_option linter.unusedVariables false\n\nnamespace Csvq.Gen\nopen Csvq\n\n")
+	o.WriteString("-- GENERATED by /verif/extract/cmpfacts from lib/value/comparison.go — do not edit.\nimport Csvq.Model.Compare\n\nset_option linter.unusedVariables false\n\nnamespace Csvq.Gen\nopen Csvq\n\n")
 
 	// the constants must still be in this order (iota): the harness reports them by number
 	var consts []string
@@ -427,6 +427,155 @@ func main() {
 		o.WriteString("/-- `Identical`: the same-type tests in order with their results -/\ndef identicalLadder : List String :=\n  " + q(order) + "\n\n")
 		o.WriteString("def identicalOrder : List String :=\n  " + q(types) + "\n\n")
 	}
+	genArithmetic(&o)
 	o.WriteString("end Csvq.Gen\n")
 	fmt.Print(o.String())
+}
+
+// ---- lib/query/arithmetic.go: calculateInteger, calculateFloat, the ladder of Calculate ----
+//
+// int64 arithmetic wraps: every integer result is passed through `wrap64`; `/` and `%` on integers are
+// Int.tdiv / Int.tmod; the float operations are the parameters `fo.add …` of the model (IEEE-754 hardware),
+// math.Mod is `fo.mod`.
+func genArithmetic(o *strings.Builder) {
+	f, err := parser.ParseFile(fset, filepath.Join(repo(), "lib", "query", "arithmetic.go"), nil, 0)
+	if err != nil {
+		die("%v", err)
+	}
+	charCode := func(e ast.Expr) string {
+		bl, ok := e.(*ast.BasicLit)
+		if !ok || bl.Kind != token.CHAR || len(bl.Value) != 3 {
+			die("%s: operator case `%s` is not a character literal", fset.Position(e.Pos()), src(e))
+		}
+		return fmt.Sprint(int(bl.Value[1]))
+	}
+	arith := func(e ast.Expr, a, b string, float bool) string {
+		if c, ok := e.(*ast.CallExpr); ok && float && src(c.Fun) == "math.Mod" && len(c.Args) == 2 && src(c.Args[0]) == a && src(c.Args[1]) == b {
+			return "fo.mod " + a + " " + b
+		}
+		be, ok := e.(*ast.BinaryExpr)
+		if !ok || src(be.X) != a || src(be.Y) != b {
+			die("%s: `%s` is not an operation on the two operands in order", fset.Position(e.Pos()), src(e))
+		}
+		if float {
+			switch be.Op {
+			case token.ADD:
+				return "fo.add " + a + " " + b
+			case token.SUB:
+				return "fo.sub " + a + " " + b
+			case token.MUL:
+				return "fo.mul " + a + " " + b
+			case token.QUO:
+				return "fo.div " + a + " " + b
+			}
+		} else {
+			switch be.Op {
+			case token.ADD:
+				return "wrap64 (" + a + " + " + b + ")"
+			case token.SUB:
+				return "wrap64 (" + a + " - " + b + ")"
+			case token.MUL:
+				return "wrap64 (" + a + " * " + b + ")"
+			case token.QUO:
+				return "wrap64 (Int.tdiv " + a + " " + b + ")"
+			case token.REM:
+				return "wrap64 (Int.tmod " + a + " " + b + ")"
+			}
+		}
+		die("%s: operator %s", fset.Position(e.Pos()), be.Op)
+		return ""
+	}
+	for _, float := range []bool{false, true} {
+		name, a, b := "calculateInteger", "i1", "i2"
+		if float {
+			name, a, b = "calculateFloat", "f1", "f2"
+		}
+		fd := findFunc(f, name)
+		// `var result … = 0` / `result := 0.0`; switch operator { … }; return value.NewX(result)[, nil]
+		if len(fd.Body.List) != 3 {
+			die("%s: body is no longer `result := 0; switch operator {…}; return`", name)
+		}
+		sw, ok := fd.Body.List[1].(*ast.SwitchStmt)
+		if !ok || src(sw.Tag) != "operator" {
+			die("%s: no switch over the operator", name)
+		}
+		ret := src(fd.Body.List[2])
+		if (!float && ret != "return value.NewInteger(result), nil") || (float && ret != "return value.NewFloat(result)") {
+			die("%s: final `%s`", name, ret)
+		}
+		zero := "some 0"
+		if float {
+			zero = "FVal.fin 0"
+		}
+		out := zero
+		// build the if-chain from the last case backwards
+		for i := len(sw.Body.List) - 1; i >= 0; i-- {
+			cc := sw.Body.List[i].(*ast.CaseClause)
+			if len(cc.List) != 1 {
+				die("%s: case list", name)
+			}
+			code := charCode(cc.List[0])
+			body := cc.Body
+			guard := ""
+			if len(body) == 2 {
+				is, ok := body[0].(*ast.IfStmt)
+				if !ok || float || src(is.Cond) != b+" == 0" || len(is.Body.List) != 1 || src(is.Body.List[0]) != "return nil, errIntegerDevidedByZero" {
+					die("%s: guard of case %s not recognised", name, src(cc.List[0]))
+				}
+				guard = "if " + b + " = 0 then none else "
+				body = body[1:]
+			}
+			as, ok := body[0].(*ast.AssignStmt)
+			if len(body) != 1 || !ok || src(as.Lhs[0]) != "result" {
+				die("%s: body of case %s", name, src(cc.List[0]))
+			}
+			val := arith(as.Rhs[0], a, b, float)
+			if !float {
+				val = guard + "some (" + val + ")"
+			}
+			out = "if operator = " + code + " then " + val + "\n  else " + out
+		}
+		if float {
+			o.WriteString("/-- `calculateFloat` (operator = the character code; fo = the float operations of the hardware) -/\ndef calculateFloat (fo : FloatOps) (f1 f2 : FVal) (operator : Nat) : FVal :=\n  " + out + "\n\n")
+		} else {
+			o.WriteString("/-- `calculateInteger` (operator = the character code); `none` = integer divided by zero -/\ndef calculateInteger (i1 i2 : Int) (operator : Nat) : Option Int :=\n  " + out + "\n\n")
+		}
+	}
+	// Calculate: the ladder
+	{
+		fd := findFunc(f, "Calculate")
+		var ladder []string
+		for _, s := range fd.Body.List {
+			switch x := s.(type) {
+			case *ast.IfStmt:
+				as := x.Init.(*ast.AssignStmt)
+				conv := src(as.Rhs[0].(*ast.CallExpr).Fun)
+				if src(as.Rhs[0].(*ast.CallExpr).Args[0]) != "p1" {
+					die("Calculate: first operand")
+				}
+				inner, ok := x.Body.List[0].(*ast.IfStmt)
+				if !ok || src(inner.Init.(*ast.AssignStmt).Rhs[0].(*ast.CallExpr).Fun) != conv || src(inner.Init.(*ast.AssignStmt).Rhs[0].(*ast.CallExpr).Args[0]) != "p2" {
+					die("Calculate: the second operand is converted differently from the first")
+				}
+				var call string
+				for _, st := range inner.Body.List {
+					if r, ok := st.(*ast.ReturnStmt); ok {
+						c := r.Results[0].(*ast.CallExpr)
+						call = src(c.Fun) + "(" + src(c.Args[0]) + "," + src(c.Args[1]) + "," + src(c.Args[2]) + ")"
+					}
+				}
+				// the raw values handed over are those of the two conversions, in order
+				raw := map[string]string{"value.ToIntegerStrictly": ".(*value.Integer).Raw()", "value.ToFloat": ".(*value.Float).Raw()"}[conv]
+				if src(inner.Body.List[0]) != "val1 := "+src(as.Lhs[0])+raw || src(inner.Body.List[1]) != "val2 := "+src(inner.Init.(*ast.AssignStmt).Lhs[0])+raw {
+					die("Calculate: the %s rung no longer hands over the two raw values in order", conv)
+				}
+				ladder = append(ladder, conv+" -> "+call)
+			case *ast.ReturnStmt:
+				ladder = append(ladder, "else -> "+src(x.Results[0]))
+			default:
+				die("Calculate: statement `%s`", src(s))
+			}
+		}
+		o.WriteString("/-- `Calculate`: the conversions tried (for BOTH operands) and what computes the result -/\ndef calcLadder : List String :=\n  " + q(ladder) + "\n\n")
+	}
 }
